@@ -3,7 +3,8 @@ import ast
 
 from .. import rules
 from ..callgraph import callgraph
-from ..model import AnalysisError, call_name, loc, unparse, is_self_attr
+from ..model import AnalysisError, call_name, loc, unparse, is_self_attr, alpha, body_stmts
+from .. import guards
 
 EXPLANATION = (
     "Static effect analysis of simulate_until_max_time: the prologue (find_next_active_node, clock assignment) consumes randomness only under a tie "
@@ -28,11 +29,9 @@ def prologue(ctx, P):
     for m in ("simulate_until_max_time", "simulate_until_max_customers", "simulate_until_deadlock"):
         cls, fn = sim.method(m)
         pre = []
-        for st in fn.body:
+        for st in body_stmts(fn):
             if isinstance(st, ast.While):
                 break
-            if isinstance(st, ast.Expr) and isinstance(st.value, ast.Constant):
-                continue
             pre.append(st)
         writes = []
         for st in pre:
@@ -49,9 +48,10 @@ def prologue(ctx, P):
             if w in ("self.current_time", "self.progress_bar"):
                 continue
             ctx.violation(ob, "R10.prologue", "Simulation.%s" % m, w, "prologue-writes-state", "re-entering the loop must not change simulation state (`%s` is written before the first event)" % w, loc(node))
-        first = [st for st in pre if isinstance(st, ast.Assign)]
-        if len(first) < 2 or unparse(first[0]) != "next_active_node = self.find_next_active_node()" or unparse(first[1]) != "self.current_time = next_active_node.next_event_date":
-            if m != "simulate_until_deadlock" or not any(unparse(s) == "next_active_node = self.find_next_active_node()" for s in pre):
+        sel = [st for st in pre if isinstance(st, ast.Assign) and isinstance(st.targets[0], ast.Name) and unparse(st.value) == "self.find_next_active_node()"]
+        clk = [st for st in pre if isinstance(st, ast.Assign) and unparse(st.targets[0]) == "self.current_time"]
+        if True:
+            if len(sel) != 1 or len(clk) != 1 or unparse(clk[0].value) != "%s.next_event_date" % unparse(sel[0].targets[0]) or pre.index(sel[0]) > pre.index(clk[0]):
                 ctx.violation(ob, "R10.prologue", "Simulation.%s" % m, "prologue", "prologue-shape", "the loop must resume from find_next_active_node() and its date", loc(fn))
     # find_next_active_node: pure scan; random_choice only under len(...) > 1
     cls, fn = sim.method("find_next_active_node")
@@ -65,8 +65,14 @@ def prologue(ctx, P):
             guarded = False
             while p is not fn:
                 p = p._parent
-                if isinstance(p, ast.If) and unparse(p.test).replace(" ", "") in ("len(next_active_nodes)>1", "len(next_active_nodes)>=2"):
-                    guarded = True
+                if isinstance(p, ast.If) and x.args:
+                    f = guards.norm(p.test, unparse)
+                    facts = {}
+                    inbody = any(x is y for st_ in p.body for y in ast.walk(st_))
+                    guards.assume(f, inbody, facts)
+                    ln = "len(%s)" % unparse(x.args[0])
+                    if facts.get(("lt", "1", ln)) is True or facts.get(("lt", ln, "2")) is False:
+                        guarded = True
             ob.ok("tie-break-guard")
             if not guarded:
                 ctx.violation(ob, "R10.prologue", "Simulation.find_next_active_node", unparse(x), "random-without-tie", "a random number is consumed even when the minimum is unique: a split run would consume one more than the unsplit run", loc(x))
